@@ -41,6 +41,10 @@ CHECKS = {
    "Fault-injecting configuration of the stream world: a twin replica receives the signal with injected non-reversal samples (duplicates, intermediate points, slope plateaus, trailing duplicates), NaN samples, negated, exactly affinely mapped, or wrapped in a pandas Series with seven index types; its cycles, residuals and indices must equal the image of the reference replica's. Each fault kind is counted when it fires.",
    "Trusted: dyadic signals so that the injected samples and affine maps are exact; one-chunk delivery (chunking is C01).",
    "deterministic simulation: seeded stream-fault injection (duplicate / intermediate / NaN samples) into a twin replica compared with an unfaulted reference replica", "DESIGN.md 4.3"),
+ "C20": check("C20", "fault_enumeration",
+   "Histories of add_geometry / add_node_set / add_element_set / add_variable / read-back calls (incl. calls that must raise) on one exporter and one real HDF5 file, compared with an in-memory model through the public importer after every step; for the faulted operation of a history ENOSPC is raised before, or EIO after, a seam call (h5py create_group / create_dataset / attribute create) - thorough tier: every seam call of that operation in both modes, each from a byte copy of the file - followed by the 'failed => absent, rest intact, counters consistent' comparison and an unfaulted retry that must succeed. Enumerates the fault points of the operation; samples histories and meshes.",
+   "Trusted: models/vmap_ref.py; h5py/libhdf5 below the seam (no faults inside libhdf5, the roll-back's own __delitem__, or File.close; no process kill: C20 promises roll-back of a failed call, not crash durability).",
+   "deterministic simulation with fault injection at the storage seam: seeded operation histories against a reference model, ENOSPC/EIO enumerated over every h5py create/attribute call of the faulted operation, retry-after-fault progress check", "DESIGN.md 4.7"),
 }
 
 def main():
